@@ -1,8 +1,134 @@
 package main
 
-// placeholder until the policy consumers (C16-C18) are wired in
-type suitesImpl struct{}
+import (
+	"math"
+	"sort"
+	"sync"
 
-func newSuitesImpl() *suitesImpl                     { return &suitesImpl{} }
-func (s *suitesImpl) register(what string, p uint32) {}
-func (s *suitesImpl) dump() interface{}              { return nil }
+	"github.com/cloudwego/kitex/client"
+	"github.com/cloudwego/kitex/pkg/circuitbreak"
+	"github.com/cloudwego/kitex/pkg/limit"
+	"github.com/cloudwego/kitex/pkg/retry"
+	"github.com/cloudwego/kitex/pkg/utils"
+	"github.com/cloudwego/kitex/server"
+
+	"github.com/kitex-contrib/xds/xdssuite"
+)
+
+// the real xdssuite policy consumers, registered on the manager under test through the
+// process-wide proxy manager; read back through public Kitex plumbing.
+type suitesImpl struct {
+	cb      *circuitbreak.CBSuite
+	rc      *retry.Container
+	lim     *limit.Option
+	updater *recUpdater
+}
+
+type recUpdater struct {
+	mu     sync.Mutex
+	pushes []interface{}
+}
+
+func qpsOf(q int) interface{} {
+	if q <= 0 || q == math.MaxInt {
+		return nil
+	}
+	return Some(uint64(q))
+}
+
+func (u *recUpdater) UpdateLimit(opt *limit.Option) bool {
+	u.mu.Lock()
+	defer u.mu.Unlock()
+	u.pushes = append(u.pushes, qpsOf(opt.MaxQPS))
+	return true
+}
+
+func newSuitesImpl() *suitesImpl { return &suitesImpl{} }
+
+func (s *suitesImpl) register(what string, port uint32) {
+	switch what {
+	case "cb":
+		o := &client.Options{}
+		xdssuite.NewCircuitBreaker(xdssuite.WithServiceCircuitBreak(true)).F(o, &utils.Slice{})
+		s.cb = o.CBSuite
+	case "retry":
+		o := &client.Options{}
+		xdssuite.NewRetryPolicy().F(o, &utils.Slice{})
+		s.rc = o.RetryContainer
+	case "limiter":
+		o := &server.Options{}
+		o.Limit.Limits = nil
+		xdssuite.NewLimiter(xdssuite.WithServicePort(port)).F(o, &utils.Slice{})
+		s.lim = o.Limit.Limits
+		s.updater = &recUpdater{}
+		if s.lim != nil && s.lim.UpdateControl != nil {
+			s.lim.UpdateControl(s.updater)
+		}
+	}
+}
+
+func (s *suitesImpl) dump() interface{} {
+	var cb, rt, lim interface{}
+	if s.cb != nil {
+		var kvs []interface{}
+		if d, ok := s.cb.Dump().(map[string]interface{}); ok {
+			if cfg, ok := d["cb_config"].(map[string]interface{}); ok {
+				if svc, ok := cfg["service"].(map[string]interface{}); ok {
+					keys := make([]string, 0, len(svc))
+					for k := range svc {
+						keys = append(keys, k)
+					}
+					sort.Strings(keys)
+					for _, k := range keys {
+						if c, ok := svc[k].(circuitbreak.CBConfig); ok {
+							kvs = append(kvs, P(k, P(P(c.Enable, uint64(math.Round(c.ErrRate*100))), uint64(c.MinSample))))
+						}
+					}
+				}
+			}
+		}
+		cb = Some(Lof(kvs))
+	}
+	if s.rc != nil {
+		var kvs []interface{}
+		if d, ok := s.rc.Dump().(map[string]interface{}); ok {
+			keys := make([]string, 0, len(d))
+			for k := range d {
+				if k != "has_code_cfg" && k != "msg" {
+					keys = append(keys, k)
+				}
+			}
+			sort.Strings(keys)
+			for _, k := range keys {
+				rd, ok := d[k].(map[string]interface{})
+				if !ok {
+					continue
+				}
+				fp, ok := rd["failure_retry"].(*retry.FailurePolicy)
+				if !ok || fp == nil {
+					kvs = append(kvs, P(k, C("Build_rpol", uint64(999), uint64(0), uint64(0), P(P(uint64(9), uint64(0)), uint64(0)))))
+					continue
+				}
+				kind, x, y := uint64(0), uint64(0), uint64(0)
+				if bo := fp.BackOffPolicy; bo != nil {
+					switch bo.BackOffType {
+					case retry.FixedBackOffType:
+						kind, x = 1, uint64(bo.CfgItems[retry.FixMSBackOffCfgKey])
+					case retry.RandomBackOffType:
+						kind, x, y = 2, uint64(bo.CfgItems[retry.MinMSBackOffCfgKey]), uint64(bo.CfgItems[retry.MaxMSBackOffCfgKey])
+					}
+				}
+				kvs = append(kvs, P(k, C("Build_rpol", uint64(fp.StopPolicy.MaxRetryTimes), uint64(fp.StopPolicy.MaxDurationMS),
+					math.Float64bits(fp.StopPolicy.CBPolicy.ErrorRate), P(P(kind, x), y))))
+			}
+		}
+		rt = Some(Lof(kvs))
+	}
+	if s.lim != nil {
+		s.updater.mu.Lock()
+		pushes := append([]interface{}(nil), s.updater.pushes...)
+		s.updater.mu.Unlock()
+		lim = Some(P(qpsOf(s.lim.MaxQPS), Lof(pushes)))
+	}
+	return C("Build_pol_obs", cb, rt, lim)
+}
